@@ -213,7 +213,7 @@ def fresh_process_history(steps, out, stats, label):
     import subprocess
     import sys
     env = dict(os.environ)
-    env["PYTHONPATH"] = "/verif:/repo"
+    env["PYTHONPATH"] = os.path.dirname(os.path.dirname(os.path.dirname(os.path.abspath(__file__)))) + ":" + os.environ.get("STATHAM_REPO", "/repo")
     code = ("import json,sys\n"
             "from harness.framework import Outcome\n"
             "from harness.props import c16\n"
